@@ -594,6 +594,7 @@ func main() {
 	translateBatchConv(*repo, writeImp)
 	translateSqrtFp(*repo, writeImp)
 	translateTranscript(*repo, writeImp)
+	translateCRS(*repo, writeImp)
 	fmt.Println("extract: ok")
 }
 
